@@ -535,6 +535,22 @@ func init() {
 	}
 }
 
+// Display-only renderings are opaque: checksum hex of an address runs keccak over the hex digits and
+// branches per nibble (2^40 paths); no consensus decision depends on it.
+func init() {
+	opaqueHex := func(c *Ctx, fr *frame, fn *ssa.Function, args []value, pos token.Pos) value {
+		b := []byte("0xXXXXXXXXXXXXXXXXXXXXXXXXXXXXXXXXXXXXXXXX")
+		return termsSlice(bytesToTerms(b))
+	}
+	for _, n := range []string{
+		"(github.com/dominant-strategies/go-quai/common.AddressBytes).checksumHex",
+		"(*github.com/dominant-strategies/go-quai/common.InternalAddress).checksumHex",
+		"(*github.com/dominant-strategies/go-quai/common.ExternalAddress).checksumHex",
+	} {
+		intrinsics[n] = opaqueHex
+	}
+}
+
 func indexByte(a []*Term, b *Term) *Term {
 	var r *Term = CI(-1)
 	for i := len(a) - 1; i >= 0; i-- {
